@@ -140,7 +140,7 @@ def plant(rng, insert, adapter, errs):
 # ----------------------------------------------------------------------------- records
 
 
-def gen_read(rng, adapters, maxlen=60):
+def gen_read(rng, adapters, maxlen=60, upper_only=False):
     r = rng.random()
     if r < 0.04:
         return ""
@@ -149,7 +149,7 @@ def gen_read(rng, adapters, maxlen=60):
     r2 = rng.random()
     if r2 < 0.15:
         alphabet = "ACGTN"
-    elif r2 < 0.2:
+    elif r2 < 0.2 and not upper_only:
         alphabet = "ACGTacgtN"
     seq = rand_seq(rng, n, alphabet)
     if adapters and rng.random() < 0.65:
@@ -177,7 +177,7 @@ def gen_qual(rng, n):
     return "".join(rng.choice(alphabet) for _ in range(n))
 
 
-def gen_records(rng, n, paired, fastq, adapters1, adapters2, maxlen=60, r2_maxlen=None):
+def gen_records(rng, n, paired, fastq, adapters1, adapters2, maxlen=60, r2_maxlen=None, upper_only=False):
     recs = []
     style = rng.choice(["none", "none", "casava", "text", "mixed"])
     for i in range(n):
@@ -192,10 +192,10 @@ def gen_records(rng, n, paired, fastq, adapters1, adapters2, maxlen=60, r2_maxle
             c1 = c2 = c
         else:
             c1 = c2 = ""
-        s1 = gen_read(rng, adapters1, maxlen)
+        s1 = gen_read(rng, adapters1, maxlen, upper_only)
         q1 = gen_qual(rng, len(s1)) if fastq else None
         if paired:
-            s2 = gen_read(rng, adapters2, r2_maxlen or maxlen)
+            s2 = gen_read(rng, adapters2, r2_maxlen or maxlen, upper_only)
             q2 = gen_qual(rng, len(s2)) if fastq else None
         else:
             s2 = q2 = None
@@ -329,6 +329,11 @@ def default_profile():
         require_named=False,
         p_interleaved_fasta=0.0,
         rename_template=None,  # (single-end template, paired template) forced onto every case
+        force_suffix=None,  # -y value forced onto every case (no --rename then)
+        p_decoy_adapter=0.0,  # an extra named adapter that is never planted (its file stays empty)
+        force_info=False,
+        revcomp_single_only=False,
+        upper_only=False,  # reads over ACGTN only
     )
 
 
@@ -347,7 +352,7 @@ def gen_case(rng, profile=None):
     if rng.random() < P["p_demux"]:
         demux = "combinatorial" if (paired and rng.random() < P["p_combinatorial"]) else "normal"
     pair_adapters = paired and not demux == "combinatorial" and rng.random() < P["p_pair_adapters"]
-    revcomp = (not pair_adapters) and rng.random() < P["p_revcomp"]
+    revcomp = (not pair_adapters) and rng.random() < P["p_revcomp"] and not (paired and P["revcomp_single_only"])
 
     # ---- adapters
     ad1, ad2 = [], []
@@ -375,7 +380,16 @@ def gen_case(rng, profile=None):
                     ad2.append(gen_adapter(rng, end, nm, allow_linked=not pair_adapters, simple=P["simple_adapters"] or pair_adapters))
             if want2 and not demux and not pair_adapters and rng.random() < 0.25:
                 ad1 = []  # adapters on R2 only
-    for a in ad1:
+    decoys = []
+    if ad1 and rng.random() < P["p_decoy_adapter"]:
+        nm = f"ad{len(ad1)}" if named else None
+        s_ = rand_seq(rng, 14)
+        decoys.append({"end": "a", "spec": (f"{nm}=" if nm else "") + s_, "name": nm, "kind": "back", "seqs": [("back", s_)]})
+        if pair_adapters:
+            nm2 = f"bd{len(ad2)}" if named else None
+            s2_ = rand_seq(rng, 14)
+            ad2.append({"end": "a", "spec": (f"{nm2}=" if nm2 else "") + s2_, "name": nm2, "kind": "back", "seqs": [("back", s2_)]})
+    for a in ad1 + decoys:
         opts.append(["-" + a["end"], a["spec"]])
     for a in ad2:
         opts.append(["-" + a["end"].upper(), a["spec"]])
@@ -458,6 +472,8 @@ def gen_case(rng, profile=None):
         if rng.random() < 0.2:
             tpl = "{header}"
         opts.append(["--rename", tpl])
+    elif P.get("force_suffix"):
+        opts.append(["-y", P["force_suffix"]])
     elif rng.random() < 0.15:
         if rng.random() < 0.5:
             opts.append(["-x", rng.choice(["pre_", "{name}_"])])
@@ -558,7 +574,7 @@ def gen_case(rng, profile=None):
             outs.append(["--too-long-paired-output", out_name(rng, "long2", fastq, OC, allowfa, cls=pc)])
         else:
             outs.append(["--too-long-output", out_name(rng, "long", fastq, OC, allowfa)])
-    if has_adapters and rng.random() < P["p_info"]:
+    if (has_adapters and rng.random() < P["p_info"]) or P.get("force_info"):
         outs.append(["--info-file", f"{SIMFS}info.tsv{rng.choice(['', '', '.gz'])}"])
     # rest/wildcard files crash with linked adapters (a TODO in steps.py; not one of our properties)
     if has_adapters and not has_linked and rng.random() < P["p_info"] / 2:
@@ -577,7 +593,7 @@ def gen_case(rng, profile=None):
     r2max = P["maxlen"]
     if paired and rng.random() < 0.3:
         r2max = rng.choice([8, 15, 120])  # very different R1/R2 lengths: chunk limits differ
-    records = gen_records(rng, n, paired, fastq, ad1, ad2, P["maxlen"], r2max)
+    records = gen_records(rng, n, paired, fastq, ad1, ad2, P["maxlen"], r2max, P["upper_only"])
     inp = gen_input(rng, paired, fastq, P["in_containers"], p_interleaved_fasta=P["p_interleaved_fasta"])
     if inp["layout"] == "interleaved" or interleaved_out:
         outs.append(["--interleaved"])
@@ -599,9 +615,9 @@ def gen_case(rng, profile=None):
             "untrimmed_mode": untrimmed_mode,
             "interleaved_out": interleaved_out,
             "pair_filter": pair_filter,
-            "names1": [a["name"] for a in ad1],
+            "names1": [a["name"] for a in ad1 + decoys],
             "names2": [a["name"] for a in ad2],
-            "n_ad1": len(ad1),
+            "n_ad1": len(ad1) + len(decoys),
             "n_ad2": len(ad2),
         },
     }
